@@ -1,8 +1,12 @@
 package main
 
 import (
+	"bytes"
 	"fmt"
+	"go/ast"
 	"go/constant"
+	"go/printer"
+	"go/token"
 )
 
 // EmitRatConstNamed writes an exact rational constant (e.g. `timeThreshold = 9.0 / 8`) as
@@ -37,6 +41,172 @@ func init() {
 		if err != nil {
 			return err
 		}
-		return c.EmitRatConstNamed(w, p, "timeThreshold", "timeThreshold")
+		if err := c.EmitRatConstNamed(w, p, "timeThreshold", "timeThreshold"); err != nil {
+			return err
+		}
+		return c.emitAntiDeadlockGuard(w, p)
 	})
+}
+
+// Shape fact for C06: the guard of the anti-deadlock branch of sentPacketHandler.OnLossDetectionTimeout (the `if`
+// whose body does `h.numProbesToSend++`). The guard is recognised SEMANTICALLY: it is evaluated as a boolean
+// function of the four atoms
+//
+//	Z = h.bytesInFlight == 0, C = h.peerCompletedAddressValidation, F = h.handshakeConfirmed,
+//	O = h.hasOutstandingCryptoPackets()
+//
+// (operators && || ! and parentheses, `!=`/`>` spellings of Z, parameterless single-return helper methods of the
+// receiver inlined) and its truth table is compared with the two shapes the model knows:
+//
+//	narrow (before /repo 23a90f5):  Z && !C
+//	wide   (since  /repo 23a90f5):  !C && (Z || (!F && !O))
+//
+// `def antiDeadlockWhenArmed : Bool` selects the model's guard. Anything else is an error (the generated module
+// then fails to build and every dependent proof with it).
+func (c *Ctx) emitAntiDeadlockGuard(w *LeanFile, p *Pkg) error {
+	fd := p.FuncDecl("sentPacketHandler", "OnLossDetectionTimeout")
+	if fd == nil || fd.Body == nil {
+		return fmt.Errorf("sentPacketHandler.OnLossDetectionTimeout not found")
+	}
+	recv := ""
+	if len(fd.Recv.List[0].Names) == 1 {
+		recv = fd.Recv.List[0].Names[0].Name
+	}
+	var guards []ast.Expr
+	ast.Inspect(fd.Body, func(n ast.Node) bool {
+		is, ok := n.(*ast.IfStmt)
+		if !ok {
+			return true
+		}
+		for _, st := range is.Body.List {
+			if id, ok := st.(*ast.IncDecStmt); ok && id.Tok == token.INC {
+				if se, ok := id.X.(*ast.SelectorExpr); ok && se.Sel.Name == "numProbesToSend" {
+					guards = append(guards, is.Cond)
+				}
+			}
+		}
+		return true
+	})
+	if len(guards) != 1 {
+		return fmt.Errorf("OnLossDetectionTimeout: expected exactly one `if` whose body increments numProbesToSend by one, found %d", len(guards))
+	}
+	show := func(e ast.Expr) string {
+		var b bytes.Buffer
+		_ = printer.Fprint(&b, token.NewFileSet(), e)
+		return b.String()
+	}
+	isSel := func(e ast.Expr, r, field string) bool {
+		se, ok := e.(*ast.SelectorExpr)
+		if !ok || se.Sel.Name != field {
+			return false
+		}
+		id, ok := se.X.(*ast.Ident)
+		return ok && id.Name == r
+	}
+	isZero := func(e ast.Expr) bool {
+		bl, ok := e.(*ast.BasicLit)
+		return ok && bl.Kind == token.INT && bl.Value == "0"
+	}
+	// eval returns the value of e under the assignment env (keys Z C F O); r is the receiver name in scope
+	var eval func(e ast.Expr, r string, env map[byte]bool, depth int) (bool, error)
+	eval = func(e ast.Expr, r string, env map[byte]bool, depth int) (bool, error) {
+		if depth > 8 {
+			return false, fmt.Errorf("guard helper nesting too deep")
+		}
+		switch x := e.(type) {
+		case *ast.ParenExpr:
+			return eval(x.X, r, env, depth)
+		case *ast.UnaryExpr:
+			if x.Op == token.NOT {
+				v, err := eval(x.X, r, env, depth)
+				return !v, err
+			}
+		case *ast.BinaryExpr:
+			switch x.Op {
+			case token.LAND, token.LOR:
+				a, err := eval(x.X, r, env, depth)
+				if err != nil {
+					return false, err
+				}
+				b, err := eval(x.Y, r, env, depth)
+				if err != nil {
+					return false, err
+				}
+				if x.Op == token.LAND {
+					return a && b, nil
+				}
+				return a || b, nil
+			case token.EQL, token.NEQ, token.GTR, token.LSS:
+				// spellings of "bytesInFlight is (not) zero"; bytes_in_flight is never negative (C06 in_flight_balanced)
+				var zero, ok bool
+				switch {
+				case isSel(x.X, r, "bytesInFlight") && isZero(x.Y):
+					ok = true
+					zero = x.Op == token.EQL
+					if x.Op == token.LSS {
+						ok = false
+					}
+				case isZero(x.X) && isSel(x.Y, r, "bytesInFlight"):
+					ok = true
+					zero = x.Op == token.EQL
+					if x.Op == token.GTR {
+						ok = false
+					}
+				}
+				if ok {
+					if zero {
+						return env['Z'], nil
+					}
+					return !env['Z'], nil
+				}
+			}
+		case *ast.SelectorExpr:
+			switch {
+			case isSel(x, r, "peerCompletedAddressValidation"):
+				return env['C'], nil
+			case isSel(x, r, "handshakeConfirmed"):
+				return env['F'], nil
+			}
+		case *ast.CallExpr:
+			if se, ok := x.Fun.(*ast.SelectorExpr); ok && len(x.Args) == 0 {
+				if id, ok := se.X.(*ast.Ident); ok && id.Name == r {
+					if se.Sel.Name == "hasOutstandingCryptoPackets" {
+						return env['O'], nil
+					}
+					// a parameterless helper of the receiver consisting of one `return <expr>`
+					if hd := p.FuncDecl("sentPacketHandler", se.Sel.Name); hd != nil && hd.Body != nil && len(hd.Body.List) == 1 &&
+						len(hd.Recv.List[0].Names) == 1 {
+						if rs, ok := hd.Body.List[0].(*ast.ReturnStmt); ok && len(rs.Results) == 1 {
+							return eval(rs.Results[0], hd.Recv.List[0].Names[0].Name, env, depth+1)
+						}
+					}
+				}
+			}
+		}
+		return false, fmt.Errorf("OnLossDetectionTimeout: anti-deadlock guard contains a term the model does not know: `%s`", show(e))
+	}
+	narrow, wide := true, true
+	for m := 0; m < 16; m++ {
+		env := map[byte]bool{'Z': m&1 != 0, 'C': m&2 != 0, 'F': m&4 != 0, 'O': m&8 != 0}
+		v, err := eval(guards[0], recv, env, 0)
+		if err != nil {
+			return err
+		}
+		z, cc, f, o := env['Z'], env['C'], env['F'], env['O']
+		if v != (z && !cc) {
+			narrow = false
+		}
+		if v != (!cc && (z || (!f && !o))) {
+			wide = false
+		}
+	}
+	if narrow == wide { // neither (both is impossible: the two tables differ)
+		return fmt.Errorf("OnLossDetectionTimeout: anti-deadlock guard `%s` is neither `bytesInFlight == 0 && !peerCompleted` nor "+
+			"`!peerCompleted && (bytesInFlight == 0 || (!handshakeConfirmed && !hasOutstandingCryptoPackets()))`", show(guards[0]))
+	}
+	w.P("/-- %s `OnLossDetectionTimeout`: the anti-deadlock probe branch is guarded by", c.pos(fd.Pos()))
+	w.P("    `!peerCompleted && (bytesInFlight == 0 || (!handshakeConfirmed && !hasOutstandingCryptoPackets()))` (true, since 23a90f5)")
+	w.P("    or by `bytesInFlight == 0 && !peerCompleted` (false); recognised by truth table over the four atoms -/")
+	w.P("def antiDeadlockWhenArmed : Bool := %v", wide)
+	return nil
 }
